@@ -69,7 +69,7 @@ def _parse(inp):
 def oracle_C07(inp, out):
     """After seeking to snapshot i, decoding with the models of symbols i-1, i-2, ... returns
     exactly those symbols; positions beyond the data are refused; pos() reports the snapshot."""
-    if any(x in (-999999, -999998, -999997) for x in out):
+    if any(x in (-999999, -999998, -999997, -999996) for x in out):
         return "panic/abort/timeout"
     ms, msg, kind, ops = _parse(inp)
     n = len(msg)
